@@ -196,7 +196,7 @@ PROPS = {
     },
     "C02": {
         "bridge": RENDER,
-        "extra_modules": ["Convergen.Props.C05", "Convergen.Props.C06"],
+        "extra_modules": ["Convergen.Props.C05", "Convergen.Props.C06", "Convergen.Props.BuilderInv", "Convergen.Props.Cover"],
         "sweeps": [sweep_runtime(60, 1500), sweep_front("nesting", 120, 3000, cats=["body", "slice"]),
                    sweep_front("scoping", 80, 2000, cats=["body", "slice"])],
         "rule": FRONT_RULE % "nesting/scoping" + RUNTIME_RULE,
@@ -251,6 +251,7 @@ PROPS = {
     },
     "C05": {
         "bridge": RENDER,
+        "extra_modules": ["Convergen.Props.BuilderInv", "Convergen.Props.Cover"],
         "sweeps": [sweep_front("nesting", 120, 4000, cats=["body", "slice", "stderr"]),
                    sweep_front("imports", 80, 2000, cats=["body", "slice", "stderr"]),
                    sweep_front("mixed", 60, 2000, cats=["body", "slice", "stderr"])],
